@@ -6,7 +6,11 @@
     snapshot obligations (buffers in/out, earlier listings) are compared;
 (T) random long histories well outside that universe are recorded from the real
     code (views, decorated spellings, binary/large contents, scribbled buffers,
-    re-inspected listings) and validated by Trace_MemFS.tla."""
+    re-inspected listings) and validated by Trace_MemFS.tla.
+(R2) MemFSSeq.tla: every SEQUENCE of 3 mutating calls with a single specified outcome, run
+    through the API of a fresh filespace (the state is reached by the calls, not built by the
+    harness), result and whole tree compared after every call; every second case / sequence
+    instantiates the model's names as string-prefix-related names (sub / sub.old / su)."""
 import os, json
 import vlib
 
